@@ -10,6 +10,8 @@ import (
 	"bufio"
 	"encoding/json"
 	"fmt"
+	"io"
+	"log/slog"
 	"os"
 	"os/exec"
 	"path/filepath"
@@ -64,6 +66,14 @@ func child(a []string) {
 	seed, _ := strconv.ParseInt(a[2], 10, 64)
 	batch, _ := strconv.Atoi(a[3])
 	nb, _ := strconv.Atoi(a[4])
+	if !p.Race {
+		// attacker-chosen counts must not be able to take the sandbox down:
+		// an allocation beyond this limit becomes "fatal error: out of memory"
+		// in this child, which the driver reports with its stack.
+		lim := uint64(6 << 30)
+		_ = syscall.Setrlimit(syscall.RLIMIT_AS, &syscall.Rlimit{Cur: lim, Max: lim})
+	}
+	slog.SetDefault(slog.New(slog.NewTextHandler(io.Discard, &slog.HandlerOptions{Level: slog.LevelError + 100})))
 	c := fw.NewCtx(p.ID, a[1], seed, batch, nb, a[5], a[6])
 	p.Run(c)
 	c.Flush(true)
@@ -259,18 +269,18 @@ func run(a []string) int {
 		if r.timedOut {
 			inconcl["batch-timeout"]++
 			exhaustive = false
-			fmt.Fprintf(os.Stderr, "batch %d timed out; last case: %s\n%s\n", b, r.progress, tail(r.log, 60))
+			fmt.Fprintf(os.Stderr, "batch %d timed out; last case: %s\n%s\n", b, r.progress, crashHead(r.log, 40))
 		} else if r.crashed {
 			exhaustive = false
 			site, gohbase := crashSite(r.log)
 			if gohbase {
 				violBatch[len(viols)] = b
 				viols = append(viols, fw.Violation{Case: r.progress, Finding: "crash:" + site,
-					Detail: tail(r.log, 80)})
+					Detail: crashHead(r.log, 60)})
 			} else {
 				harnessFailure = true
 				fmt.Fprintf(os.Stderr, "HARNESS FAILURE in batch %d (no gohbase frame in crash); last case: %s\n%s\n",
-					b, r.progress, tail(r.log, 80))
+					b, r.progress, crashHead(r.log, 40))
 			}
 		}
 		for _, rr := range r.races {
@@ -555,6 +565,21 @@ func crashSite(log string) (string, bool) {
 	}
 	_ = msg
 	return kind + ":" + strings.TrimSpace(msg), false
+}
+
+// crashHead returns the first n lines starting at the panic / fatal error /
+// SIGQUIT line of a child log.
+func crashHead(log string, n int) string {
+	best := -1
+	for _, k := range []string{"panic: ", "fatal error: ", "SIGQUIT", "unexpected signal"} {
+		if i := strings.Index(log, k); i >= 0 && (best < 0 || i < best) {
+			best = i
+		}
+	}
+	if best < 0 {
+		return tail(log, n)
+	}
+	return firstLines(log[best:], n)
 }
 
 func tail(s string, n int) string {
